@@ -126,7 +126,11 @@ def install(world):
         return out
     reg('enumerate', b_enumerate, True)
 
+    _zip_uf = [None]
+
     def b_zip(it, node, *xs):
+        if xs and all(isinstance(x, SVal) for x in xs):
+            return _zip_uf[0](it, node, *xs)    # opaque iterables: T-lazy
         sps = [world.iter_spec(x, it) for x in xs]
         from .world import IterSpec
         n = sps[0].length
@@ -644,8 +648,13 @@ def install(world):
         return _sorted_uf(it, node, x, **kw)
     reg('sorted', b_sorted, True)
 
+    _chain_uf = lazy_uf('itertools.chain')
+    _zip_uf[0] = lazy_uf('py.zip')
+
     def it_chain(it, node, *xs):
         from .world import IterSpec
+        if xs and all(isinstance(x, SVal) for x in xs):
+            return _chain_uf(it, node, *xs)     # opaque iterables: T-lazy
         if any(isinstance(x, PairStream) for x in xs):
             parts = []
             for x in xs:
